@@ -187,6 +187,45 @@ def duration_cases(rng, fill):
         text = rng.choice(["T#", "TIME#", "t#"]) + sep.join(parts)
         cases.append(lit_case("dur", "compound.%d%s" % (len(parts), ".sep" if sep else ""), text, ACCEPT,
                               ["dur", ns], vtype="TIME"))
+    # compound durations at large: any decreasing selection of units, upper-case units, a fraction in the last part,
+    # digit-group underscores, a sign, boundary values per part; the value is the exact sum of the parts
+    for _ in range(120 + fill):
+        ks = sorted(rng.sample(range(5), rng.randint(2, 5)))
+        contiguous = ks == list(range(ks[0], ks[-1] + 1))
+        parts = []
+        total = Fraction(0)
+        for n_, k in enumerate(ks):
+            last = n_ == len(ks) - 1
+            if last and rng.random() < 0.4:
+                txt = rng.choice(["0.5", "1.5", "30.25", "0.001", "2.000001", "59.999", "1_0.5", "0.125"])
+            else:
+                txt = rng.choice(["0", "1", "2", "23", "24", "25", "59", "60", "61", "90", "999", "1000", "1_000", "007", "86400",
+                                  str(rng.randint(0, 100000))])
+            u = UNITS[k][0]
+            parts.append(txt + (u.upper() if rng.random() < 0.2 else u))
+            total += Fraction(txt.replace("_", "")) * UNITS[k][1]
+        sep = rng.choice(["", "", "_"])
+        neg = rng.random() < 0.25
+        text = rng.choice(["T#", "TIME#", "t#", "time#"]) + ("-" if neg else "") + sep.join(parts)
+        if total.denominator != 1:
+            verdict, value = EITHER, None
+        else:
+            # units that skip one (1h30s) are not derivable from B.1.2.3.1: if accepted, then with the value of the sum
+            verdict, value = (ACCEPT if contiguous else IF_ACCEPTED), ["dur", -int(total) if neg else int(total)]
+        cases.append(lit_case("dur", "compound.any.%d%s%s%s" % (len(parts), ".sep" if sep else "", ".neg" if neg else "",
+                                                              "" if contiguous else ".gap"), text, verdict, value, vtype="TIME"))
+    # not durations: units out of order or repeated, a fraction before the last part, a part without unit or without
+    # number, an unknown unit, a dangling or doubled separator - each must be rejected, none read as some sum
+    for bad in ["30m1h", "1s1m", "5ms1s", "1h1h", "1m30m", "1d1d2h", "1.5h30m", "0.5d12h", "1h30.5m20s", "1h30", "1d2", "1h_30",
+                "h30m", "1hm", "1h30x", "1h30sec", "1h30min", "1d2w", "1h_", "1h__30m", "_1h30m", "1h30m_", "1h 30m"[:2] + "_m",
+                "1h30m1", "1mss", "1msms", "1ms30s"]:
+        for pfx in ("T#", "TIME#-"):
+            cases.append(lit_case("dur", "compound.malformed", pfx + bad, REJECT, None, vtype="TIME"))
+    # carriers: parts that each fit but whose sum does not
+    big_d = I64 // 86400
+    cases.append(lit_case("dur", "compound.overflow", "T#%dd23h59m59s" % big_d, EITHER, None, vtype="TIME"))
+    cases.append(lit_case("dur", "compound.overflow", "T#%dd24h" % (big_d + 1), REJECT, None, vtype="TIME"))
+    cases.append(lit_case("dur", "compound.overflow", "T#%dd%dh" % (big_d, I64 // 3600), REJECT, None, vtype="TIME"))
     return cases
 
 
